@@ -58,7 +58,7 @@ func refShape(n *TNode) any {
 func shapeMatch(got, want any, path string) string {
 	if marker, ok := want.(*TNode); ok {
 		// Condition expression: passed through (a Condition value) or expanded
-		if cd, isCond := stackage.ConvertCondition(got); isCond {
+		if cd, isCond := AsCond(got); isCond {
 			return condMatches(cd, marker, path)
 		}
 		return shapeMatch(got, []any{"CONDITION", marker.Kw, marker.Op.Build(), refExprShape(marker)}, path)
@@ -132,7 +132,7 @@ func valueMatches(v any, n *TNode, path string) string {
 			return fmt.Sprintf("%s: %s, expected %s", path, Show(v), Show(n.Leaf.Build()))
 		}
 	case "stack":
-		s, ok := stackage.ConvertStack(v)
+		s, ok := AsStack(v)
 		if !ok || !s.IsInit() {
 			return fmt.Sprintf("%s: %s, expected a %s stack", path, Show(v), n.Kind)
 		}
@@ -150,7 +150,7 @@ func valueMatches(v any, n *TNode, path string) string {
 			}
 		}
 	case "cond":
-		cd, ok := stackage.ConvertCondition(v)
+		cd, ok := AsCond(v)
 		if !ok || !cd.IsInit() {
 			return fmt.Sprintf("%s: %s, expected a Condition", path, Show(v))
 		}
@@ -173,8 +173,8 @@ func unmarshalEq(a, b any, path string) string {
 			}
 			return ""
 		}
-		if ca, ok := stackage.ConvertCondition(a); ok {
-			if cb, ok2 := stackage.ConvertCondition(b); !ok2 || ca.IsEqual(cb) != nil {
+		if ca, ok := AsCond(a); ok {
+			if cb, ok2 := AsCond(b); !ok2 || ca.IsEqual(cb) != nil {
 				return path + ": condition differs"
 			}
 			return ""
@@ -228,20 +228,20 @@ func liveAt(root stackage.Stack, path []int) (stackage.Stack, bool) {
 	var cur any = root
 	for _, i := range path {
 		if i == -1 {
-			cd, ok := stackage.ConvertCondition(cur)
+			cd, ok := AsCond(cur)
 			if !ok {
 				return stackage.Stack{}, false
 			}
 			cur = cd.Expression()
 			continue
 		}
-		s, ok := stackage.ConvertStack(cur)
+		s, ok := AsStack(cur)
 		if !ok {
 			return stackage.Stack{}, false
 		}
 		cur, _ = s.Index(i)
 	}
-	s, ok := stackage.ConvertStack(cur)
+	s, ok := AsStack(cur)
 	return s, ok && s.IsInit()
 }
 
